@@ -46,6 +46,7 @@ def cases(draw):
         "target_picks": draw(st.lists(st.integers(0, 1), min_size=12, max_size=12)),
         "twin_first": draw(st.booleans()),
         "target_order": draw(st.permutations(list(range(12)))),
+        "report_fn": draw(st.booleans()),
     }
 
 
@@ -90,9 +91,26 @@ def fixed_cases(tier):
     return [k6_case()]
 
 
+def add_report_function(spec):
+    """A model function that is only ever requested as a target and that is NOT element-wise (it
+    reduces a stacked vector): a legitimate scalar function whose value on a whole panel column
+    differs from its row-by-row value."""
+    vs = list(spec.states)[:1] + list(spec.choices)[:1]
+    if not vs:
+        return spec
+    new = spec.copy()
+    terms = ", ".join(f"{0.5 + i} * {v}" for i, v in enumerate(vs))
+    new.functions["report_total"] = {"args": vs, "body": f"xp.sum(xp.stack([{terms}, 0.25 + 0.0 * {vs[0]}]))"}
+    new.params["report_total"] = {}
+    return new
+
+
 def check(case):
     import pandas as pd
 
+    if case.get("report_fn"):
+        case = dict(case)
+        case["spec"] = add_report_function(Spec.from_json(case["spec"])).to_json()
     spec, ref, skip = prepare(case)
     dg = case_digest(case)
     if skip:
@@ -107,6 +125,8 @@ def check(case):
     else:
         targets = [n for n, p in zip(pool, case["target_picks"]) if p]
         # the caller's order of the targets is arbitrary (not the declaration order)
+        if case.get("report_fn") and "report_total" in spec.functions and "report_total" not in targets:
+            targets.append("report_total")
         order = case.get("target_order", list(range(12)))
         targets = [t for _, t in sorted(zip(order, targets))]
     classes = model_classes(spec, ref)
